@@ -82,11 +82,14 @@ inductive PC
   | start
   | checked                      -- preconditions evaluated, nothing written yet
   | holding (seen : Members)     -- tree: `index.lock` held, index read; bare: current tree read
+  | written (seen : Members)     -- tree: the working-tree file is written/unlinked, nothing committed yet
   | done (r : Res)
   deriving DecidableEq, Repr
 
 structure Shared where
   members : Members := []
+  /-- tree store: the working tree (what `delete_one` reads for its ETag check, before the lock) -/
+  wt : Members := []
   lock : Option Nat := none      -- who holds `index.lock`
   /-- ghost: the writes that reached the store, in order (thread, operation) -/
   log : List (Nat × Op) := []
@@ -106,11 +109,17 @@ def stepThread (uidOf : String → Option String) (k : Kind) (mode : Mode) (i : 
      | .done _ => (sh, t)
      | _ =>
        let (m', r) := atomic uidOf sh.members t.op
-       ({ sh with members := m', log := if r = .ok then sh.log ++ [(i, t.op)] else sh.log }, { t with pc := .done r }))
+       ({ sh with members := m', wt := m', log := if r = .ok then sh.log ++ [(i, t.op)] else sh.log },
+        { t with pc := .done r }))
   | .processes =>
     match t.pc with
     | .start =>
-      (match check uidOf sh.members t.op with
+      -- the tree store's `delete_one` checks the ETag of the working-tree file, `import_one` that
+      -- of the index entry; the bare store has no working tree
+      let view := match k, t.op with
+        | .tree, .del _ _ => sh.wt
+        | _, _ => sh.members
+      (match check uidOf view t.op with
        | some r => (sh, { t with pc := .done r })
        | none => (sh, { t with pc := .checked }))
     | .checked =>
@@ -120,12 +129,16 @@ def stepThread (uidOf : String → Option String) (k : Kind) (mode : Mode) (i : 
          else ({ sh with lock := some i }, { t with pc := .holding sh.members })
        | .bare => (sh, { t with pc := .holding sh.members }))
     | .holding seen =>
-      -- tree: unlink of a working-tree file that is gone fails (and the lock is released)
-      if k == .tree && (match t.op with | .del n _ => (seen.lookup n).isNone | _ => false) then
-        ({ sh with lock := none }, { t with pc := .done .failed })
-      else
-        ({ sh with members := effect seen t.op, lock := (match k with | .tree => none | .bare => sh.lock),
-                   log := sh.log ++ [(i, t.op)] }, { t with pc := .done .ok })
+      (match k with
+       | .tree =>
+         -- unlink of a working-tree file that is gone fails (and the lock is released)
+         if (match t.op with | .del n _ => (sh.wt.lookup n).isNone | _ => false) then
+           ({ sh with lock := none }, { t with pc := .done .failed })
+         else ({ sh with wt := effect sh.wt t.op }, { t with pc := .written seen })
+       | .bare =>
+         ({ sh with members := effect seen t.op, log := sh.log ++ [(i, t.op)] }, { t with pc := .done .ok }))
+    | .written seen =>
+      ({ sh with members := effect seen t.op, lock := none, log := sh.log ++ [(i, t.op)] }, { t with pc := .done .ok })
     | .done _ => (sh, t)
 
 def setNth {α : Type} : List α → Nat → α → List α
